@@ -9,7 +9,7 @@ EXTENDS MiniJS, Json, IOUtils
 
 Tier == IF "TIER" \in DOMAIN IOEnv THEN IOEnv.TIER ELSE "quick"
 Quick == Tier = "quick"
-MaxSteps == 800
+MaxSteps == 1600
 
 \* ======================= family CF: loop kind x exit kind x enclosing construct x placement =====
 N == Var("n")
@@ -163,6 +163,9 @@ EOBodies ==
     <<STry(SBlock(<<SExpr(Call(Dot(ENull, "m"), <<T(1, I(1))>>))>>), "e", SBlock(<<SLog(Dot(Var("e"), "name"))>>), NoS)>>,
     <<STry(SBlock(<<SExpr(Mem(ENull, T(1, EStr("k"))))>>), "e", SBlock(<<SLog(Dot(Var("e"), "name"))>>), NoS)>>,
     <<SSwitch(T(1, I(2)), <<Case(T(2, I(1)), <<SLog(EStr("a"))>>), Case(T(3, I(2)), <<SLog(EStr("b"))>>), Case(T(4, I(3)), <<SLog(EStr("c"))>>)>>)>>,
+    <<SSwitch(I(1), <<Case(EStr("1"), <<SLog(EStr("s")), SBreak("")>>), Case(I(1), <<SLog(EStr("n")), SBreak("")>>), Case(NoE, <<SLog(EStr("d"))>>)>>)>>,   \* case tests use ===
+    <<SSwitch(EStr("2"), <<Case(I(2), <<SLog(EStr("n")), SBreak("")>>), Case(NoE, <<SLog(EStr("d")), SBreak("")>>), Case(EStr("2"), <<SLog(EStr("s"))>>)>>)>>,
+    <<SSwitch(ENull, <<Case(EUndef, <<SLog(EStr("u")), SBreak("")>>), Case(ENull, <<SLog(EStr("n"))>>)>>)>>,
     <<SFor(SExpr(T(1, I(0))), Bin("<", T(2, Var("x")), I(2)), T(3, Upd("++", FALSE, "x")), SBlock(<<SLog(EStr("b"))>>))>>,
     <<SForIn(TRUE, "k", T(1, Obj(<<"p", "q">>, <<I(1), I(2)>>)), SBlock(<<SLog(Var("k"))>>))>>,
     <<SDo(SBlock(<<SLog(EStr("b")), Inc("x")>>), Bin("<", T(1, Var("x")), I(2)))>>,
@@ -364,8 +367,10 @@ Recs == ndJsonDeserialize(IOEnv.OBS_FILE)                 \* [id, prog, devs, lo
 \*  the snapshot did; they are no longer switched on, so a regression is a VIOLATION)
 AllDevs == {"Dev_CompletionTail", "Dev_CatchParamScope"}
 DevsOf(r) == LET S == {r.devs[j] : j \in 1..Len(r.devs)} IN IF "*" \in S THEN AllDevs ELSE S
-PosOf(r, nid, fld) == LET S == {j \in 1..Len(r.pos) : r.pos[j][1] = nid}
-                      IN IF S = {} THEN -1 ELSE r.pos[CHOOSE j \in S : TRUE][IF fld = "line" THEN 2 ELSE 3]
+\* r.pos: [nid, line, column, statement line, statement column] per marked node (harness/render.py).  A location reported
+\* for node nid is right if it is the node's own position or the start of the statement that contains it
+PosOK(r, nid, fld, val) == \E j \in 1..Len(r.pos) : r.pos[j][1] = nid /\ (IF fld = "line" THEN val \in {r.pos[j][2], r.pos[j][4]}
+                                                                                         ELSE val \in {r.pos[j][3], r.pos[j][5]})
 \* a value of the machine against the projected engine value
 ValMatches(r, v, a) ==
   CASE v.t = "int" -> a.t = "int" /\ a.i = v.i
@@ -373,7 +378,7 @@ ValMatches(r, v, a) ==
     [] v.t = "bool" -> a.t = "bool" /\ a.b = v.b
     [] v.t \in {"undef", "null"} -> a.t = v.t
     [] v.t = "ref" -> a.t = "ref" /\ a.h = v.h
-    [] v.t = "loc" -> a.t = "int" /\ a.i = PosOf(r, v.nid, v.f)
+    [] v.t = "loc" -> a.t = "int" /\ PosOK(r, v.nid, v.f, a.i)
     [] v.t = "hostnone" -> a.t = "host" /\ a.d = "NoneType"                     \* as-is only (Dev_NoLocInFunctions)
     [] v.t = "anyloc" -> a.t = "int" \/ (a.t = "host" /\ a.d = "NoneType")       \* as-is only (Dev_NoRuntimeLoc)
     [] OTHER -> FALSE
